@@ -153,11 +153,9 @@ def check_object(qual, obj, stats, case, dotted=False, src=None):
         for gname, getter in three_getters():
             try:
                 r = getter(obj)
-            except RecursionError:
-                raise
             except Exception as e:
                 if ierr is None:
-                    stats.fail('C07/raises-where-inspect-succeeds/%s' % frame_bucket(e), case,
+                    stats.fail('C07/raises-where-inspect-succeeds/%s' % ('RecursionError' if isinstance(e, RecursionError) else frame_bucket(e)), case,
                                '%s(%s) raised %s: %s although inspect.signature gives %s%s' % (
                                    gname, qual, type(e).__name__, str(e)[:300], own, '\n' + src if src else ''))
                 elif type(e) is not type(ierr):
@@ -355,6 +353,19 @@ STMTS = [
     '...',
     '"docstring"',
     'pass',
+    # recursion (direct and mutual), callees that can take none of what is forwarded, values that are not what the
+    # star-argument syntax needs at inspection time, attribute access that raises
+    'return w(*args, **kwargs)',
+    'return PING(*args, **kwargs)',
+    'return NOARGS(*args, **kwargs)',
+    'return F(*args, **NONE)',
+    'return F(*FIVE, **kwargs)',
+    'return G(1, *args, **NONE)',
+    'return PROP.boom(*args, **kwargs)',
+    'return PROP.boom.deeper(*args, **kwargs)',
+    'return EQ(*args, **kwargs)',
+    'g = (F(*args, **kwargs) for _ in range(1))\nargs = ()\nreturn list(g)',
+    'async def co2(*args, **kwargs):\n    return F(*args, **kwargs)\nreturn co2()',
     # physical lines indented less than the def they belong to (\x01 = stays in column 0): inside a class or a function the
     # source of such a def cannot be dedented, so it does not parse on its own
     's = \"\"\"text\n\x01in column zero\n\"\"\"\nF(*args, **kwargs)',
@@ -375,6 +386,9 @@ HEADS = [
     ('def outer():\n    def w(*args, **kwargs):', 'outer()'),
     ('@functools.wraps(G)\ndef w(*args, **kwargs):', 'w'),
     ('@DECO2\n@DECO2\ndef w(a, *args, **kwargs):', 'w'),
+    ('class K:\n    def w(*args, **kwargs):', 'K().w'),
+    ('def w0(*args, **kwargs):\n    return w(*args, **kwargs)\ndef w(*args, **kwargs):', 'functools.partial(w0, 1, 2, 3)'),
+    ('def w0(*args, **kwargs):\n    return w(*args, **kwargs)\ndef w(*args, **kwargs):', 'functools.partial(w0, zz9=3)'),
 ]
 PRELUDE = ('import functools\n'
            'def F(x, y=2, *, z=3):\n    return 0\n'
@@ -383,7 +397,14 @@ PRELUDE = ('import functools\n'
            'def DECO2(f):\n    return f\n'
            'class CM:\n    def __enter__(self): return ()\n    def __exit__(self, *a): return False\n'
            'class E(Exception):\n    pass\n'
-           'G1 = None\n')
+           'G1 = None\n'
+           'def PING(*a, **k):\n    return PONG(*a, **k)\n'
+           'def PONG(*a, **k):\n    return PING(*a, **k)\n'
+           'def NOARGS():\n    return 0\n'
+           'NONE = None\nFIVE = 5\n'
+           'class _Prop:\n    @property\n    def boom(self):\n        raise RuntimeError("computed at run time only")\nPROP = _Prop()\n'
+           'class _Eq:\n    def __eq__(self, other):\n        raise RuntimeError("compared")\n    __hash__ = object.__hash__\n'
+           '    def __call__(self, x, y=2):\n        return 0\nEQ = _Eq()\n')
 LAMBDAS = [
     'w = lambda *args, **kwargs: F(*args, **kwargs)',
     'w = (lambda a, *args, **kwargs:\n     F(*args, **kwargs))',
@@ -422,7 +443,8 @@ def render(case):
     if 'lam' in case:
         return PRELUDE + LAMBDAS[case['lam']] + '\n', 'w'
     head, target = HEADS[case['head']]
-    depth = 4 + 4 * (head.count('\n    ') > 0 or head.startswith('class') or head.startswith('def outer'))
+    last = head.splitlines()[-1]
+    depth = len(last) - len(last.lstrip()) + 4
     body = ''.join(indent(STMTS[i] + '\n', depth) for i in case['stmts'])
     src = ('from __future__ import annotations\n' if case.get('future') else '') + PRELUDE + head + '\n' + body
     if head.startswith('def outer'):
@@ -509,6 +531,10 @@ def special_objects():
             ('partial(int, base=2)', functools.partial(int, base=2)), ('partial(Hostile())', functools.partial(Hostile(), 1)),
             ('types.MethodType(print, 1)', types.MethodType(print, 1)), ('classmethod(len)', classmethod(len)),
             ('property()', property()), ('None', None), ('3', 3), ('NotImplemented', NotImplemented)]
+    from unittest import mock
+    out += [('mock.Mock()', mock.Mock()), ('mock.MagicMock()', mock.MagicMock()), ('mock.NonCallableMock()', mock.NonCallableMock()),
+            ('mock.call', mock.call), ('mock.ANY', mock.ANY),
+            ('mock.create_autospec(f)', mock.create_autospec(lambda a, b=1: 0)), ('mock.Mock().method', mock.Mock().method)]
     return out
 
 
